@@ -393,7 +393,44 @@ def run(ctx):
                                      "client fibers, schedule); non-trivial = a call failed in the implementation trace"})
         if ctx.failures and not ctx.violations:
             search(ctx, exe)
+    reclaim_layer(ctx)
     core.finish(ctx, extra_assumptions=ASSUME)
+
+
+def reclaim_layer(ctx):
+    """the second half of C04 (reclaimed exactly once, after finish + join/detach, untouched afterwards) on the WHOLE
+    real runtime (T2 machine of C01: real context switches, done_fiber slots, work stealing): join/detach-heavy
+    programs, judged by the reclaim oracle (destroy events, quarantined + poisoned control blocks, join results)."""
+    from vf.props import C01
+    exe = C01.build(ctx)
+    if not exe:
+        return
+    rng = random.Random(ctx.seed * 7919 + 44)
+    cases = []
+    n = 200 if ctx.tier == "quick" else 5000
+    for _ in range(n):
+        nk = rng.choice([2, 2, 3, 3, 4])
+        nf = rng.randint(1, 5)
+        progs = [[(rng.choice([10, 10, 10, 11, 11, 1, 3, 12, 18]), rng.randint(0, 1)) for _ in range(rng.randint(1, 6))]
+                 for _f in range(nf)]
+        cases.append(core.fmt_case([60000, nk], progs, core.random_sched(rng, nk, rng.randint(50, 2500), rng.randrange(3))))
+    impl = core.run_sharded([exe], cases, timeout=900)
+    bad = 0
+    for c, line in zip(cases, impl):
+        tr = core.parse_trace(line) if line is not None else None
+        why = core.safe_monitor(C01.monitor, c, tr, line)
+        if not why and tr:
+            for (t, loc, kind, val) in tr:
+                if kind == 909 and 1000 <= loc < 1100 and val == 7:
+                    why = "a join in fiber %d did not deliver the child's return value" % (loc - 1000)
+                    break
+        if why:
+            bad += 1
+            if bad <= 3:
+                core.report_violation(ctx, "kernel", c, "whole-runtime reclaim layer: " + why, line)
+    ctx.coverage["reclaim_layer_t2"] = {"runs": len(cases), "violations": bad,
+                                        "what": "join/detach-heavy programs on the whole real runtime, 2-4 kernel threads"}
+    ctx.oblige("reclaim-t2(%d runs)" % len(cases), bad == 0, "%d runs judged a violation" % bad)
 
 
 def search(ctx, exe):
@@ -413,6 +450,9 @@ def search(ctx, exe):
 
 
 def replay(ctx, payload):
+    if payload.get("harness") == "kernel":
+        from vf.props import C01
+        return C01.replay(ctx, payload)
     exe = build(ctx)
     c = payload.get("case")
     if not exe or not c:
@@ -436,6 +476,7 @@ TRUSTED = [
     "rt/h_join.c: free() of the target fiber replaced by an event + quarantine (-Dfree=h_join_free)",
     "hand-written models coq/T1K.v + coq/Join.v; tie = identical per-access traces",
     "SC interleaving; -O0 instrumented build",
+    "reclaim layer: rt/t2.c whole-runtime machine + the reclaim oracle of tools/vf/props/C01.py (a monitor, not a theorem)",
 ]
 ASSUME = ["given C01 and C02 (a fiber behaves as a sequential process that is resumed once per wake-up): the T1 cut of DESIGN.md 3.4",
           "thread 0's program ends with the body of fiber_join_routine (static in fiber.c), reproduced textually in rt/h_join.c",
